@@ -17,10 +17,10 @@ HARNESSES = [
     dict(name="radius", pkg="./plugins/auth/radius/", test="TestVerifC03Radius", timeout=300,
          files=[("plugins/auth/radius/zz_verif_c03_radius_test.go", "harness/C03/zz_verif_c03_radius_test.go")]),
 ]
-# the first variant is the repaired code; the others are /repo HEAD with the open (known:) PPPoE findings of
-# KNOWN_FINDINGS.txt, in every combination so that applying one fix patch keeps the check silent.  A regression to a fixed
-# defect is a VIOLATION.
-VARIANTS = ["repaired", "defective", "noteardown", "heldanswer"]   # defective = /repo HEAD (both open findings); the other two: one of them fixed
+# every C03 finding is fixed in /repo (KNOWN_FINDINGS.txt, last: e9950ea, 0709f1b): the only variant is what /repo HEAD does; a
+# regression to any fixed defect is a VIOLATION.  (The driver still accepts "defective" / "noteardown" / "heldanswer" = HEAD
+# before those two commits, used only when a patch is validated on a scratch tree.)
+VARIANTS = ["repaired"]
 MODEL_NEEDS_IMPL = True   # only for the FSM table flavour reported by the harness (see notes/C03.md)
 RULE = ("pppoe: (a) systematic: each of 16 prefixes reaching a distinct phase/FSM situation (fresh, LCP open, auth pending, "
         "network, open, renegotiated, renegotiated+pending, re-authenticating, rejected, terminated, static address, "
@@ -455,7 +455,7 @@ def classify(case, impl, model):
 
 def signature(case, impl, models):
     t = case.split()
-    rep, dfc = models["repaired"], models["defective"]
+    rep, dfc = models["repaired"], models.get("defective", models["repaired"])
     if t[0] == "pppoe":
         # the implementation equals one of the defect variants: classify by the first step where it leaves the
         # repaired model
